@@ -278,12 +278,30 @@ class World:
         # documented pass-through keyword arguments of the update calls (handed on to the ODE solver); the same ones
         # are given to every per-mineral and every bulk update of this world
         self.solver_kw = dict(solver_kw or {})
+        # every second world hands the library ONE parameter dictionary object for its whole history, edited in place
+        # between calls (what a client does who changes one entry of its params before the next update); the other
+        # worlds build a fresh dictionary per call
+        World._count = getattr(World, "_count", 0) + 1
+        self._params_obj = {} if World._count % 2 == 0 else None
         self.events = []
 
     # -- helpers
-    def file(self, f):
-        # a deliberately non-canonical spelling of the archive path (the same file under "/./"): results
-        # must not depend on how the client spells the path
+    def params(self, par):
+        p = make_params(par)
+        if self._params_obj is None:
+            return p
+        self._params_obj.clear()
+        self._params_obj.update(p)
+        return self._params_obj
+
+    def file(self, f, op="save"):
+        # deliberately different spellings of the SAME archive path: writers spell it with "/./", Mineral.load with the
+        # canonical path and Mineral.from_file with a doubled separator - results must not depend on how the client
+        # spells the path, nor on whether the reader spells it like the writer did
+        if op == "load":
+            return str(self.dir / f"{f}.npz")
+        if op == "from_file":
+            return str(self.dir) + "//" + f"{f}.npz"
         return str(self.dir) + "/./" + f"{f}.npz"
 
     def canon_fid(self, arr, prev=None):
@@ -356,7 +374,7 @@ class World:
             get_regime = lambda t, x: r0 if t < tmid else cb - 100  # noqa: E731
         else:
             get_regime = lambda t, x: cb  # noqa: E731
-        Fn = m.update_orientations(make_params(par), F, getL, (t0, t0 + dt, getx), get_regime=get_regime, **dict(self.solver_kw))
+        Fn = m.update_orientations(self.params(par), F, getL, (t0, t0 + dt, getx), get_regime=get_regime, **dict(self.solver_kw))
         return Fn, fl, dt
 
     def _advance(self, name, fl, dt):
@@ -393,7 +411,7 @@ class World:
         try:
             Fn = pd.update_all(
                 [self.minerals[x] for x in ms],
-                make_params(act["par"]),
+                self.params(act["par"]),
                 self.Fexp[ms[0]].copy(),
                 getL,
                 (t0, t0 + dt, getx),
@@ -488,24 +506,24 @@ class World:
         k = act["k"]
         if k == "none":           # whole file: no postfix argument at all / an explicit None, alternating
             if len(act["f"]) % 2 == 0 or act["m"] in ("b", "d"):
-                self.minerals[act["m"]].load(self.file(act["f"]))
+                self.minerals[act["m"]].load(self.file(act["f"], "load"))
             else:
-                self.minerals[act["m"]].load(self.file(act["f"]), postfix=None)
+                self.minerals[act["m"]].load(self.file(act["f"], "load"), postfix=None)
         elif len(k) % 2 == 0:     # keyword / positional
-            self.minerals[act["m"]].load(self.file(act["f"]), k)
+            self.minerals[act["m"]].load(self.file(act["f"], "load"), k)
         else:
-            self.minerals[act["m"]].load(self.file(act["f"]), postfix=k)
+            self.minerals[act["m"]].load(self.file(act["f"], "load"), postfix=k)
         self.refresh_fids(act["m"])
 
     def _FromFile(self, act):
         k = act["k"]
         name = act["m"]
         if k == "none":
-            self.minerals[name] = self.pydrex.Mineral.from_file(self.file(act["f"])) if name in ("a", "c") else self.pydrex.Mineral.from_file(self.file(act["f"]), postfix=None)
+            self.minerals[name] = self.pydrex.Mineral.from_file(self.file(act["f"], "from_file")) if name in ("a", "c") else self.pydrex.Mineral.from_file(self.file(act["f"], "from_file"), postfix=None)
         elif len(k) % 2 == 1:
-            self.minerals[name] = self.pydrex.Mineral.from_file(self.file(act["f"]), k)
+            self.minerals[name] = self.pydrex.Mineral.from_file(self.file(act["f"], "from_file"), k)
         else:
-            self.minerals[name] = self.pydrex.Mineral.from_file(self.file(act["f"]), postfix=k)
+            self.minerals[name] = self.pydrex.Mineral.from_file(self.file(act["f"], "from_file"), postfix=k)
         self.seed[name] = None
         self.F[name] = np.eye(3)
         self.Fexp[name] = np.eye(3)
